@@ -186,6 +186,76 @@ impl<T> Drop for InFlightBuffers<T> {
     }
 }
 
+/// The in-flight buffer set behind a drop-recording payload, for the correspondence check.
+#[cfg(all(feoxdb_verif, target_os = "linux"))]
+pub mod verif_inflight {
+    use super::InFlightBuffers;
+    use std::sync::atomic::{AtomicBool, Ordering};
+    use std::sync::Arc;
+
+    struct Token {
+        index: usize,
+        dropped: Arc<Vec<AtomicBool>>,
+    }
+
+    impl Drop for Token {
+        fn drop(&mut self) {
+            self.dropped[self.index].store(true, Ordering::SeqCst);
+        }
+    }
+
+    pub struct Set {
+        inner: InFlightBuffers<Token>,
+        dropped: Arc<Vec<AtomicBool>>,
+        pushed: usize,
+    }
+
+    impl Set {
+        pub fn new(capacity: usize) -> Self {
+            Set {
+                inner: InFlightBuffers::with_capacity(capacity),
+                dropped: Arc::new((0..capacity).map(|_| AtomicBool::new(false)).collect()),
+                pushed: 0,
+            }
+        }
+
+        pub fn push(&mut self) -> usize {
+            let index = self.pushed;
+            self.inner.push(Token {
+                index,
+                dropped: Arc::clone(&self.dropped),
+            });
+            self.pushed += 1;
+            index
+        }
+
+        pub fn mark_in_flight(&mut self, index: usize) {
+            self.inner.mark_in_flight(index);
+        }
+
+        pub fn mark_unqueued(&mut self, index: usize) {
+            self.inner.mark_unqueued(index);
+        }
+
+        pub fn mark_complete(&mut self, index: usize) -> bool {
+            self.inner.mark_complete(index)
+        }
+
+        /// drop the set; which payloads were released (true) and which leaked (false)
+        pub fn finish(self) -> Vec<bool> {
+            let Set {
+                inner,
+                dropped,
+                pushed,
+            } = self;
+            drop(inner);
+            (0..pushed)
+                .map(|index| dropped[index].load(Ordering::SeqCst))
+                .collect()
+        }
+    }
+}
+
 #[cfg(any(target_os = "linux", test))]
 fn validate_write_completion(result: i32, expected: usize) -> io::Result<()> {
     if result < 0 {
